@@ -214,6 +214,14 @@ class C08(PropCheck):
             out.append({"k": "gen", "items": items, "async": rng.random() < 0.4, "lseed": rng.randrange(1 << 30), "glob": rng.random() < 0.3})
         for t in UNSUPPORTED:
             out.append({"k": "gen", "items": [["cm", t]], "async": False, "lseed": 1})
+        # dynamic leg: the metadata must also be right on live frames — probes inside manager methods (the context is exiting,
+        # its obj unknown to the bytecode analysis) and at suspension points, on generated programs
+        for _ in range(60 if tier == "quick" else 800):
+            out.append({"k": "dyn", "kind": rng.choice(["gen", "coro", "agen", "sync"]), "pseed": rng.randrange(1 << 30),
+                        "depth": rng.randint(1, 3), "choices": [rng.randrange(6) for _ in range(rng.randint(0, 12))]})
+        for ci in range(len(__import__("harness.progs", fromlist=["CORPUS"]).CORPUS)):
+            for ch in ([], [1], [0, 1], [1, 0, 1], [0, 0, 1, 1], [1, 1, 0, 1, 0]):
+                out.append({"k": "dyn", "corpus": ci, "choices": ch})
         files = stdlib_files()
         rng.shuffle(files)
         for f in (files[:60] if tier == "quick" else files):
@@ -226,6 +234,8 @@ class C08(PropCheck):
         self._probs: List[str] = []
         if case["k"] == "file":
             return self.run_file(case["path"])
+        if case["k"] == "dyn":
+            return self.run_dyn(case)
         src, with_line = layout(random.Random(case["lseed"]), [tuple(x) for x in case["items"]], case["async"], case.get("glob", False))
         ns: Dict[str, Any] = {}
         try:
@@ -281,6 +291,65 @@ class C08(PropCheck):
             if real != ctx.varname:
                 self._probs.append(f"analyze_with_blocks handed describe_assignment_target another instruction: {ctx.varname!r} vs {real!r}")
         return "§".join(outs)
+
+    def run_dyn(self, case):
+        """Every context reported on a live frame of a generated program carries the `as` target its with item has in the
+        source (None for an item without one) and the line of that with statement — whether the manager is active or exiting."""
+        import sys as _sys
+
+        import stackscope
+
+        from .. import progs
+
+        if "corpus" in case:
+            case = dict(case)
+            case["kind"], src = progs.CORPUS[case["corpus"]]
+        else:
+            src = progs.gen_program(random.Random(case["pseed"]), case["kind"], case["depth"], probes=True)
+        lines = src.splitlines()
+        probs: List[str] = []
+        seen = [0]
+
+        def obs(w, label):
+            try:
+                if w.kind != "sync" and label == "suspended":
+                    st = stackscope.extract(w.target)
+                    fr = [f for f in st.frames if f.pyframe is w.frame]
+                else:
+                    f = _sys._getframe(1)
+                    while f is not None and f.f_code.co_name != "prog":
+                        f = f.f_back
+                    if f is None:
+                        return
+                    st = stackscope.extract(stackscope.StackSlice(outer=f))
+                    fr = st.frames[:1]
+                if not fr:
+                    return
+                tof = getattr(w, "target_of", {})
+                for c in fr[0].contexts:
+                    if c.obj is None or id(c.obj) not in tof or type(c.obj).__name__ not in ("Mgr", "AMgr"):
+                        continue
+                    seen[0] += 1
+                    want = tof[id(c.obj)]
+                    if c.varname != want:
+                        probs.append(f"{label}: context of manager with target {want!r} (exiting={c.is_exiting}) reports varname {c.varname!r}")
+                    if c.start_line is None or not (1 <= c.start_line <= len(lines)) or "with " not in lines[c.start_line - 1]:
+                        probs.append(f"{label}: start_line {c.start_line} is not the line of a with statement")
+                    elif f"W.T({want!r}, " not in lines[c.start_line - 1]:
+                        probs.append(f"{label}: start_line {c.start_line} is the line of another with statement "
+                                     f"({lines[c.start_line - 1].strip()[:60]!r}), not the one holding the target {want!r}")
+            except Exception as e:
+                probs.append(f"{label}: {type(e).__name__}: {e}")
+
+        with warnings.catch_warnings(record=True):
+            warnings.simplefilter("always")
+            import contextlib as _cl
+            import io as _io
+            with _cl.redirect_stderr(_io.StringIO()):
+                progs.run_program(src, case["kind"], case["choices"], obs)
+        self._probs = probs
+        self._dyn_seen = seen[0]
+        return f"contexts={seen[0]} bad={len(probs)}"
 
     @staticmethod
     def is_supported(target: str) -> bool:
@@ -387,6 +456,8 @@ class C08(PropCheck):
             return json.dumps(case["items"])
         if case["k"] == "file" and isinstance(real, str) and not real.startswith("with-blocks=0"):
             return case["path"]
+        if case["k"] == "dyn" and isinstance(real, str) and not real.startswith("contexts=0 "):
+            return json.dumps({k: v for k, v in case.items() if not k.startswith("_")}, sort_keys=True)
         return None
 
     def stats(self, cases, reals):
@@ -400,6 +471,10 @@ class C08(PropCheck):
                 if isinstance(r, str):
                     d["rendered"] += r.count("S:")
                     d["none"] += r.count("None")
+            elif c["k"] == "dyn":
+                d["dynamic_programs"] = d.get("dynamic_programs", 0) + 1
+                if isinstance(r, str) and r.startswith("contexts="):
+                    d["dynamic_contexts_judged"] = d.get("dynamic_contexts_judged", 0) + int(r.split("=")[1].split()[0])
             else:
                 d["files"] += 1
                 if isinstance(r, str) and r.startswith("with-blocks="):
